@@ -7,7 +7,7 @@ from Bio.Seq import Seq
 from vlib import lib
 from vlib.runner import ShardResult
 
-from inscripta.biocantor.gene.codon import Codon, TranslationTable
+from inscripta.biocantor.gene.codon import Codon, TranslationTable, START_CODONS_BY_TRANSLATION_TABLE
 from inscripta.biocantor.gene.cds_frame import CDSFrame, CDSPhase
 from inscripta.biocantor.gene.biotype import Biotype
 from inscripta.biocantor.sequence.alphabet import Alphabet, ALPHABET_TO_NUCLEOTIDE_COMPLEMENT
@@ -138,13 +138,40 @@ def part_codons(res, part):
     res.sample({"codon": "ATG", "aa": std_aa("ATG")})
 
 
+def held_problems(held, tables, only=None):
+    """codons are process-wide singletons: a reference taken earlier must keep its spelling, hash, translation and its place
+    in the start-codon tables whatever was constructed or asked in between"""
+    probs = []
+    for c in (only if only is not None else held):
+        cod = held.get(c)
+        if cod is None:
+            continue
+        if str(cod) != c or cod.value != c or hash(cod) != hash(c) or cod.translate(strict=True) != std_aa(c) or cod.is_stop_codon != (c in STD.stop_codons):
+            probs.append((c, f"held reference to Codon({c!r}) now reads {str(cod)!r}, translates to {cod.translate(strict=True)!r}"))
+    if only is None:
+        for tab, ref in tables.items():
+            got = {str(x) for x in START_CODONS_BY_TRANSLATION_TABLE[tab]}
+            if got != ref or any((held[c] in START_CODONS_BY_TRANSLATION_TABLE[tab]) != (c in ref) for c in held):
+                probs.append((f"table{int(tab)}", f"start codon table {int(tab)} now reads {sorted(got)}"))
+    return probs
+
+
 def part_iupac(res, part):
     k = int(part[-1])
     letters = IUPAC
+    strict_codons = ["".join(p) for p in itertools.product("ACGT", repeat=3)]
+    held = {c: Codon(c) for c in strict_codons}
+    tables = {TranslationTable.DEFAULT: {"ATG"}, TranslationTable.STANDARD: set(STD.start_codons), TranslationTable.PROKARYOTE: set(BACT.start_codons)}
     for idx, trip in enumerate(itertools.product(letters, repeat=3)):
         if idx % 4 != k:
             continue
         t = "".join(trip)
+        # constructing any spelling (RNA letters, lower case) leaves the references taken before untouched
+        for variant in (t, t.lower(), t[0] + t[1:].lower()):
+            Codon(variant)
+            res.trans()
+            for c, msg in held_problems(held, tables, only=[t.replace("U", "T")]):
+                dev(res, "Codon", ("iupac", variant, "held-reference"), msg, f"Codon({c!r}) unchanged", "codon-held-reference")
         res.state(("iupac", t))
         res.nontriv(("iupac", t))
         for variant in (t, t.lower(), t[0] + t[1:].lower()):
@@ -184,6 +211,9 @@ def part_iupac(res, part):
                 exp = {"".join(p) for p in itertools.product("ACGT", repeat=3) if std_aa("".join(p)) == aa_n}
                 if {str(x) for x in syn} != exp:
                     dev(res, "synonymous_codons", ("iupac", variant), sorted(str(x) for x in syn), sorted(exp), "synonymous-ambiguous")
+    res.trans()
+    for c, msg in held_problems(held, tables):
+        dev(res, "Codon", ("iupac", c, "held-reference-final"), msg, "unchanged", "codon-held-reference")
     res.sample({"triplet": "CTN", "expansions": expansions("CTN")})
 
 
